@@ -448,7 +448,7 @@ def main(tier, seed):
     try:
         translate()
         run.obligation("translate:state_manager accessor policy", True)
-    except TranslateError as e:
+    except Exception as e:  # fail closed: anything the translator cannot digest
         run.obligation("translate:state_manager accessor policy", False, str(e))
     run.prove("Props/C17.v", link_rels=["Link/Alias.v"])
     try:
